@@ -17,7 +17,7 @@ for sd in seeds:
     t0 = time.time()
     try:
         subprocess.run(["git", "-C", "/repo", "apply", patch], check=True)
-        p = subprocess.run([os.path.join(ROOT, "check"), prop, "--tier", tier, "--no-evidence"], cwd=ROOT, capture_output=True, text=True)
+        p = subprocess.run([os.path.join(ROOT, "check"), prop, "--tier", tier, "--no-evidence", "--fail-fast"], cwd=ROOT, capture_output=True, text=True)
     finally:
         subprocess.run(["git", "-C", "/repo", "checkout", "--", "."], check=True)
     vio = [l for l in p.stdout.splitlines() if l.startswith("VIOLATION") or l.startswith("counterexample")]
